@@ -62,6 +62,11 @@ class AArr:
         return f"AArr{self.shape}"
 
 
+class AIdx(AArr):
+    """An array of integer indices (np.arange, argsort ...): as a subscript
+    it is advanced indexing, not a mask."""
+
+
 class AObj:
     """An abstract geometry object: three data slots known by shape."""
 
@@ -152,7 +157,8 @@ def index_array(a, idx):
     """NumPy basic indexing on a shape: ints, slices, Ellipsis, None."""
     if not isinstance(idx, tuple):
         idx = (idx,)
-    n_real = sum((len(i.shape) if isinstance(i, AArr) else 1)
+    n_real = sum((1 if isinstance(i, AIdx) else len(i.shape)
+                  if isinstance(i, AArr) else 1)
                  for i in idx if i is not None and i is not Ellipsis
                  and not isinstance(i, ANpBool))
     if n_real > len(a.shape):
@@ -171,6 +177,12 @@ def index_array(a, idx):
             continue
         if isinstance(i, ANpBool):
             out.append("#selected")      # 0-d mask: a new leading axis
+            continue
+        if isinstance(i, AIdx):
+            if pos >= len(a.shape):
+                raise ShapeError("too many indices")
+            out.extend(i.shape)          # advanced (integer) indexing
+            pos += 1
             continue
         if isinstance(i, AArr):
             # boolean mask covering the next len(i.shape) axes
@@ -1257,6 +1269,18 @@ class Interp:
             return list(args[0])
         if name == "np.reshape" and len(args) >= 2:
             return np_reshape(args[0], args[1])
+        if name == "np.arange" and len(args) == 1:
+            return AIdx((args[0],))
+        if name in ("np.all", "np.any") and isinstance(args[0], AArr):
+            axis = kw.get("axis", args[1] if len(args) > 1 else None)
+            if axis is None:
+                return ABool()
+            ax = _norm_axes(axis, len(args[0].shape))
+            out = tuple(d for i, d in enumerate(args[0].shape)
+                        if i not in ax)
+            return AArr(out) if out else ANpBool()
+        if name in ("np.all", "np.any") and isinstance(args[0], AScal):
+            return ANpBool()
         if name == "np.full":
             shp = args[0]
             return AArr(tuple(shp) if isinstance(shp, (tuple, list))
